@@ -66,6 +66,9 @@ pub struct WorldSpec {
     pub height: u32,
     /// call graph restricted to a DAG (contract i calls only j > i)
     pub dag: bool,
+    /// the chain's base asset id is not the all-zero id
+    #[serde(default)]
+    pub alt_base: bool,
 }
 
 pub const N_PLAIN_ASSETS: usize = 3;
@@ -179,6 +182,9 @@ impl WorldSpec {
         params.set_gas_costs(gas_costs(&self.sched));
         let fee = FeeParameters::default().with_gas_price_factor(self.price_factor.max(1)).with_gas_per_byte(self.gas_per_byte);
         params.set_fee_params(fee);
+        let base_asset = if self.alt_base { AssetId::from([0xBA; 32]) } else { AssetId::zeroed() };
+        params.set_base_asset_id(base_asset);
+        let plain_asset = |i: usize| if i == 0 { base_asset } else { plain_asset(i) };
         let height: BlockHeight = self.height.into();
 
         // ---- tables
@@ -532,10 +538,11 @@ pub fn world(script_w: prog::Weights, max_body: usize, max_contracts: usize) -> 
             prop_oneof![1 => Just(0u8), 4 => 1u8..4],
             prop::collection::vec((0u8..3, 0u64..500), 0..3),
         ),
-        (prog::body(script_w, false, max_body), prop::collection::vec((prop_oneof![8 => 0u8..3, 1 => 4u8..9], word(), word()), 1..5), clustered_keys(), [word(), word(), word(), word(), word(), word(), word(), word()], prop::collection::vec(any::<u8>(), 64..=64), 0u32..100, prop::bool::weighted(0.85)),
+        (prog::body(script_w, false, max_body), prop::collection::vec((prop_oneof![8 => 0u8..3, 1 => 4u8..9], word(), word()), 1..5), clustered_keys(), [word(), word(), word(), word(), word(), word(), word(), word()], prop::collection::vec(any::<u8>(), 64..=64), 0u32..100, prop::bool::weighted(0.85), prop::bool::weighted(0.3)),
     )
-        .prop_map(|((sched, gas_price, price_factor, gas_per_byte, tip, gas_limit, base_extra), (contracts, blobs), (coins, msg_coin, msg_data, change, variables, coin_outs), (script, calls, keys, words, raw, height, dag))| WorldSpec {
+        .prop_map(|((sched, gas_price, price_factor, gas_per_byte, tip, gas_limit, base_extra), (contracts, blobs), (coins, msg_coin, msg_data, change, variables, coin_outs), (script, calls, keys, words, raw, height, dag, alt_base))| WorldSpec {
             dag,
+            alt_base,
             sched,
             gas_price,
             price_factor,
